@@ -225,6 +225,9 @@ class Uniform(Prior):
             raise ParameterSpecificationError(
                     "Guess {} is not within bounds {} and {}.".format(
                     guess, lower_bound, upper_bound))
+        elif np.isinf(guess):  # (an infinite bound is within the bounds)
+            raise ParameterSpecificationError(
+                    "Guess {} is not finite.".format(guess))
         else:
             self.guess = guess
 
